@@ -6,6 +6,7 @@ use mzkh::Ctx;
 use num_bigint::BigUint;
 use num_traits::{One, Zero};
 
+mod batch;
 mod msm;
 mod poly;
 use msm::{gen_case, pool, run_bls_specific, run_bn_specific, run_booth, run_generic, BasePool, Entry, Mode, POOLS};
@@ -268,8 +269,10 @@ fn main() {
     section(&mut ctx, "booth", run_booth);
     section(&mut ctx, "msm", run_msm);
     section(&mut ctx, "edge", run_edge_probes);
+    section(&mut ctx, "batch", batch::run_batch);
     section(&mut ctx, "fft", poly::run_fft);
     section(&mut ctx, "eval-kate-interp", poly::run_eval_kate_interp);
+    section(&mut ctx, "inner-const", poly::run_inner_const);
     section(&mut ctx, "domain", poly::run_domain);
     section(&mut ctx, "commit", poly::run_commit);
     ctx.finish();
